@@ -58,6 +58,9 @@ def run_check(prop, argv, props, rule, level="model_checking", quick_budget=240,
     exhaustive = True
     only = c.opts.get("only")   # development aid: --only=<substring of a scenario name>; the run is not exhaustive then
     for name, scs, depth, devbound in fam_fn(c.tier):
+        # a scenario may be meant for some properties only (tag "only:C01,C02"): under the others' oracles it shows nothing
+        # but a known finding in another guise
+        scs = [x for x in scs if not any(t.startswith("only:") and prop not in t[5:].split(",") for t in x.get("tags", []))]
         if only:
             scs = [x for x in scs if only in x["name"]]
             exhaustive = False
